@@ -309,9 +309,24 @@ class Sym:
             if k == "switch":
                 d = self.operand(env, t["d"])
                 neg = False
-                while d[0] == "un" and d[1] == "Not":
-                    d = d[2]
-                    neg = not neg
+                while True:
+                    if d[0] == "un" and d[1] == "Not":
+                        d = d[2]
+                        neg = not neg
+                    elif d[0] == "bin" and d[1] in _NEG_BIN:
+                        d = ("bin", _NEG_BIN[d[1]], d[2], d[3])
+                        neg = not neg
+                    elif d[0] == "call" and d[1].endswith("::ne") and "PartialEq" in d[1]:
+                        d = ("call", d[1][:-2] + "eq", d[2])
+                        neg = not neg
+                    elif d[0] == "call" and d[1] == "std::option::Option::is_none":
+                        d = ("call", "std::option::Option::is_some", d[2])
+                        neg = not neg
+                    elif d[0] == "call" and d[1] == "std::result::Result::is_err":
+                        d = ("call", "std::result::Result::is_ok", d[2])
+                        neg = not neg
+                    else:
+                        break
                 vals = t["vals"]
                 tgts = t["tgts"]
                 other = t["otherwise"]
@@ -398,6 +413,9 @@ class Sym:
         for p in projs:
             e = self.project(env, e, p)
         return e
+
+
+_NEG_BIN = {"Ne": "Eq", "Le": "Gt", "Ge": "Lt"}
 
 
 def _pkey(projs):
